@@ -141,7 +141,7 @@ def obligations(tier):
     obs = []
     for mname in P.MODES:
         obs.append(Ob(f'cover_{mname}', 'S', ob_glue_cover, f'every filler word accounted for, mode {mname}', functions=G, weight=6,
-                      timeout=7000, params={'mmax': 2 if q else 3, 'fill': (0, 2, 3, 4) if q else (0, 3, 4, 5), 'modes': [mname],
+                      timeout=7000, params={'mmax': 2 if q else 3, 'fill': (0, 2, 3, 4) if q else (0, 3, 5), 'modes': [mname],
                                             'cap': 2100 if q else 6500}))
     for pname in ('twprge_regex', 'pp_twprge_no_nswe', 'pp_twprge_no_nsr', 'pp_twprge_no_ewt', 'pp_twprge_pm', 'pp_twprge_comma_remove'):
         obs.append(Ob(f'pp_span_{pname}', 'M', ob_pp_span, f'{pname} never reaches into a following prose word', functions=[pname],
